@@ -75,7 +75,7 @@ claim('C17', 'CBMC on the real load_binary staleness gate with a stub file syste
       'Solver-decided: the loader starts reading the program image only if the source and every listed include are not newer than the binary, the magic / driver id / configuration id match and the stored name matches; otherwise it returns out-of-date; for a program with one inherit the inherited program is only resolved when its source and its own saved binary (SaveBinaryDir with a leading slash) are not newer than this binary.',
       'Only the gate of C17 is covered: relocation and table re-sorting (locate_in, patch_in, sort_function_table) and equality with a fresh compile are not.',
       'DESIGN.md 5/C17')
-claim('C08', 'CBMC inductive step of the real move_object and destruct_object from an arbitrary forest over 3 objects with havoc-to-invariant callbacks; real f_move_object with a havoc destination lookup',
-      'Solver-decided: from any acyclic environment/inventory forest and any flags, move_object keeps the forest invariant (each object on exactly the inventory list of its environment, no cycles) after the move, at every init() callback and on the error path, with each callback replacing the graph by another arbitrary forest; a plain move puts the item into its destination; destruct_object leaves the destructed object in no inventory, holding nothing and off the object list whatever the move_or_destruct() callback of its contents did; the move_object efun never moves an object that create() of the destination destructed.',
-      'Name table (otable), living names, heart beats and connections are contract stubs in destruct_object; load/clone name bookkeeping and the other efun guards are not covered; callbacks are havoc (not real nested calls); 3 objects.',
+claim('C08', 'CBMC inductive step of the real move_object from an arbitrary forest over 3 objects with havoc-to-invariant callbacks; real f_move_object with a havoc destination lookup',
+      'Solver-decided: from any acyclic environment/inventory forest and any flags, move_object keeps the forest invariant (each object on exactly the inventory list of its environment, no cycles) after the move, at every init() callback and on the error path, with each callback replacing the graph by another arbitrary forest; a plain move puts the item into its destination; the move_object efun never moves an object that create() of the destination destructed.',
+      'destruct_object is NOT decided (a destruct mode of the forest harness exists but its recursive cascade does not finish in 1500 s); name table (otable), load/clone name bookkeeping and the other efun guards are not covered; callbacks are havoc (not real nested calls); 3 objects.',
       'DESIGN.md 5/C08')
